@@ -120,6 +120,9 @@ func init() {
 		Worker: func(w *core.WorkerCtx) {
 			runRandomScenarios(w, []string{"C09"}, w.Pick(12, 60), func(p *ledger.Profile) { p.PForge = 0.25; p.PReplay = 0.12 }, c09SyncAfter)
 			concurrentDupChild(w, []string{"C09"})
+			if w.Batch == 1 || (w.Thorough() && w.Batch%8 == 1) {
+				c09DroppedThenTampered(w, []string{"C09"})
+			}
 			c09Truncation(w)
 		},
 	})
@@ -142,6 +145,9 @@ func init() {
 			}
 			if w.Batch == 3 || (w.Thorough() && w.Batch%8 == 3) {
 				c10HeaviestTip(w)
+			}
+			if w.Batch == 4 || (w.Thorough() && w.Batch%8 == 4) {
+				c10AfterTruncation(w)
 			}
 		},
 	})
